@@ -25,6 +25,20 @@
                         a confirm under way) is lost; unconfirmed events stay queued and are offered again
                         [C03 after repair ff00860; C17: the master runs an integrity poll after every
                         connection — here that is a later TakeSnapshot/SendEvents chosen by the run]
+     SendSelected ids   the outstation writes the queued events with these ids (in queue order) into a
+                        response; they STAY in the queue.  A master may ask for one event class only (the
+                        automatic scan of the classes an IIN bit announced; stepfunc `event_scan_on_events_
+                        available`), and the response then carries the oldest events OF THAT CLASS, which
+                        is not a prefix of the queue: the rule of `SendEvents` (the n oldest overall) is too
+                        strict for it.  This label is the generalisation: any selection of queued events.
+     Overflow ids       the event buffer discards the queued events with these ids and REPORTS them
+                        (UpdateInfo::Overflow).  The real buffer has one limit per point type and discards
+                        the oldest event OF THAT TYPE (event/buffer.rs `insert`: remove_first(T::is_type)),
+                        which is not the oldest of the whole queue: the rule of `Update` (one capacity `cap`,
+                        the oldest overall) is too strict for it.  This label is the generalisation: ANY
+                        queued events may be dropped as long as their ids are reported; only ids that are
+                        queued are dropped and reported.  A real transaction that overflows is the two
+                        labels Update p v true; Overflow [d] with `cap` = the sum of the per-type limits.
 
    A run is any list of these labels: all interleavings, any number of cuts, any chunking (chunking is
    below this abstraction: C06/C08).  A label that does not apply (DeliverSnapshot with nothing in
@@ -67,7 +81,9 @@ Inductive label :=
 | SendEvents (n : nat)
 | DeliverEvents
 | Confirm
-| LoseConnection.
+| LoseConnection
+| Overflow (ids : list N)
+| SendSelected (ids : list N).
 
 Definition upd {A} (f : point -> A) (p : point) (a : A) : point -> A :=
   fun q => if N.eqb q p then a else f q.
@@ -77,6 +93,9 @@ Definition ev_pair (e : event) : point * value := (e_pt e, e_val e).
 (* the handler processes the objects of a fragment in order: the last one for a point wins *)
 Definition see (vw : point -> option value) (l : list (point * value)) : point -> option value :=
   fold_left (fun w pv => upd w (fst pv) (Some (snd pv))) l vw.
+
+(* the event's id is one of ids *)
+Definition id_in (ids : list N) (e : event) : bool := existsb (N.eqb (e_id e)) ids.
 
 Definition init (iv : point -> value) : state :=
   mkState iv [] 0 None [] false (fun _ => None) [] [] [] [].
@@ -115,6 +134,13 @@ Definition step (cap : nat) (s : state) (l : label) : state :=
       else s
   | LoseConnection =>
       mkState (db s) (queue s) (next_id s) None [] false (view s)
+              (created s) (discarded s) (delivered s) (received s)
+  | Overflow ids =>
+      mkState (db s) (filter (fun e => negb (id_in ids e)) (queue s)) (next_id s)
+              (sflight s) (eflight s) (eacked s) (view s)
+              (created s) (discarded s ++ map e_id (filter (id_in ids) (queue s))) (delivered s) (received s)
+  | SendSelected ids =>
+      mkState (db s) (queue s) (next_id s) (sflight s) (filter (id_in ids) (queue s)) false (view s)
               (created s) (discarded s) (delivered s) (received s)
   end.
 
